@@ -53,7 +53,11 @@ TForget == Is("CaForget") /\ Adv /\ CaForget(Ev.acct)
 TNext == TReset \/ TClientReset \/ TBegin \/ TSend \/ TCaGet \/ TCaPost \/ TNonceSet
          \/ TOk \/ TErr \/ TGiveUp \/ TForget
 
-TSpec == TInit /\ [][TNext]_tvars
+(* Every step on which an enforced guard failed is reported (and nothing else  *)
+(* is printed: an invariant violation would make TLC print the whole prefix).  *)
+Report == (bad' \cap Enforce # {}) => PrintT(<<"BAD", bad' \cap Enforce, l>>)
+
+TSpec == TInit /\ [][TNext /\ Report]_tvars
 
 (* Every line of the trace was consumed. *)
 Accepted ==
@@ -62,8 +66,4 @@ Accepted ==
     ELSE /\ PrintT(<<"UNMATCHED", d>>)
          /\ FALSE
 
-(* Reports which guard failed and on which line. *)
-NoBadT == IF bad \cap Enforce = {} THEN TRUE
-          ELSE /\ PrintT(<<"BAD", bad \cap Enforce, l - 1>>)
-               /\ FALSE
 =============================================================================
